@@ -1509,6 +1509,95 @@ def p_approximations(b):
         b.t(lambda: tape.adjoint(ops.logaddexp, ops.add, out, (graw, model)))
 
 
+def index_tensor(b, size, ns=(), dtype=np.int64):
+    """A held integer index Tensor over a monitored user array with values in [0, size)."""
+    shape = tuple(s_ for _, s_ in ns)
+    a = b.npr.randint(0, size, size=shape).astype(dtype)
+    if a.size and b.rng.random() < 0.5:
+        a.reshape(-1)[b.npr.randint(a.size)] = b.rng.choice([0, size - 1])
+    arr = b.mon.register(a, "index")
+    return b.hold(Tensor(arr, b.inputs(list(ns)), size))
+
+
+@program
+def p_index_terms(b):
+    """Symbolic index terms (Slice, Variable) and advanced indexing with HELD integer Tensors: every
+    combination of start in {0, >0} x step in {1, >1}; indices int64/int32, with and without own inputs;
+    Slices, Numbers; fused lazy substitutions; Stack/Cat name substitution; each index object is then
+    RE-USED on another tensor and the result compared with plain numpy indexing of the original values."""
+    n = 10
+    x = b.tensor([("i", n), ("j", 3)], ())
+    y = b.tensor([("i", n)], (2,))
+    xs = Stack("s", tuple(b.tensor([("j", 3)], ()) for _ in range(4)))
+    cat = Cat("c", (b.tensor([("c", 4), ("j", 3)], ()), b.tensor([("c", 6)], ())))
+    b.hold(xs, cat)
+    combos = [(0, 1), (2, 1), (0, 2), (1, 3), (3, 1), (2, 2)]
+    # a seed-rotated subset per run: always one start>0/step=1 slice, plus two of the others
+    for start, step in [b.rng.choice([(2, 1), (3, 1)])] + b.rng.sample(combos, 2):
+        stop = b.rng.randint(start + 1, n)
+        size = len(range(start, stop, step))
+        sl = Slice("t", start, stop, step, n)
+        b.hold(sl)
+        # re-use targets whose indexed input has the slice's size
+        yk = b.tensor([("k", size)], (2,))
+        xsk = Stack("s", tuple(b.tensor([("j", 3)], ()) for _ in range(size))) if size <= 4 else None
+        c1 = b.rng.randint(1, size) if size > 1 else 1
+        catk = Cat("c", (b.tensor([("c", c1), ("j", 3)], ()),) + ((b.tensor([("c", size - c1)], ()),) if size > c1 else ()))
+        b.hold(catk)
+        idxs = [index_tensor(b, size, (), np.int64), index_tensor(b, size, [("a", 3)], np.int64),
+                index_tensor(b, size, [("a", 2), ("bb", 2)], np.int32), index_tensor(b, size, [("j", 3)], np.int64)]
+        for idx in b.rng.sample(idxs, 2):
+            before = np.array(idx.data)
+            label = f"Slice('t',{start},{stop},{step},{n})(t=idx{tuple(idx.inputs)}:{idx.data.dtype})"
+            r = b.step(label, lambda: sl(t=idx))
+            if r is not None and isinstance(r, Tensor):
+                expect = start + step * before
+                if not np.array_equal(np.asarray(r.data), expect):
+                    raise MutationObserved(list(b.history), [("value", f"Slice(t=idx) returned {np.asarray(r.data).tolist()} expected {expect.tolist()}")])
+            # fused lazy substitutions and direct advanced indexing with the SAME index object
+            b.step("x(i=Slice)(t=idx)", lambda: x(i=sl)(t=idx))
+            with lazy:
+                lz = b.t(lambda: x(i=sl))
+            if lz is not None:
+                b.step("lazy x(i=Slice) then (t=idx)", lambda: lz(t=idx))
+            with lazy:
+                lz2 = b.t(lambda: y[Variable("i", Bint[n])](i=sl))
+            if lz2 is not None:
+                b.step("lazy y[i](i=Slice) then (t=idx)", lambda: lz2(t=idx))
+            # re-use of the index object on another tensor: value must equal numpy indexing with `before`
+            if xsk is not None:
+                b.step("Stack(s=idx) (name substitution, re-using idx)", lambda: xsk(s=idx))
+            r3 = b.step("yk(k=idx) re-using idx", lambda: yk(k=idx))
+            if isinstance(r3, Tensor) and not idx.inputs:
+                if not np.array_equal(np.asarray(r3.data), np.asarray(yk.data)[int(before)], equal_nan=True):
+                    raise MutationObserved(list(b.history), [("value", "yk(k=idx) differs from yk.data[idx0]: index object changed")])
+            b.step("Cat(c=idx) re-using idx", lambda: catk(c=idx))
+        b.step("Slice(t=Slice)", lambda: sl(t=Slice("u", 0, size, 1, size)))
+        if size > 1:
+            b.step("Slice(t=strided Slice)", lambda: sl(t=Slice("u", 1, size, 2, size)))
+        b.step("Slice(t=Number)", lambda: sl(t=Number(size - 1, size)))
+        b.step("Slice(t=Variable)", lambda: sl(t=Variable("w", Bint[size])))
+        b.step("x(i=Slice)", lambda: x(i=sl))
+        b.step("cat(c=Slice)", lambda: cat(c=Slice("t", start, stop, step, 10)))
+    # Variable(name)(name=idx), advanced indexing x[idx], x[idx, idx2]
+    idx = index_tensor(b, n, [("a", 3)])
+    idx0 = index_tensor(b, n, ())
+    jdx = index_tensor(b, 3, [("a", 3)], np.int32)
+    v = Variable("i", Bint[n])
+    b.step("Variable('i')(i=idx)", lambda: v(i=idx))
+    b.step("Variable('i')(i=idx0)", lambda: v(i=idx0))
+    b.step("x(i=idx, j=jdx)", lambda: x(i=idx, j=jdx))
+    b.step("y[idx]-style: y(i=idx)[jdx2]", lambda: y(i=idx)[index_tensor(b, 2, [("a", 3)])])
+    z = b.tensor([], (n, 3))
+    b.step("z[idx]", lambda: z[idx])
+    b.step("z[idx, jdx]", lambda: z[idx, jdx])
+    b.step("z[idx0]", lambda: z[idx0])
+    b.step("(v * 2)(i=idx)", lambda: (v * 2)(i=idx))
+    with lazy:
+        e = Subs(x, (("i", v),))
+    b.step("lazy Subs(x, i=v)(i=idx)", lambda: e(i=idx))
+
+
 def run_program(name, mon, rng, edge="auto"):
     """Run one program.  Returns (status, info): status in ok | declined | violation | harness-bug."""
     mon.rng = rng          # layout choices of this program's arrays come from its own PRNG (exact replay)
